@@ -43,6 +43,11 @@ Byte(b)     == [op |-> "byte", n |-> b]                       \* the single byte
 \* sequential bindings (keeps long recurrences linear in size): binds = <<[name, val], ...>>
 Lets(binds, body) == [op |-> "lets", binds |-> binds, a |-> <<body>>]
 
+Xor(a, b)   == [op |-> "xor", a |-> <<a, b>>]                     \* byte-wise XOR of two strings of equal length
+\* integer term: t read as a little-endian integer, modulo n;  Select: the (0-based) idx-th of the terms ts
+LeMod(t, n) == [op |-> "lemod", a |-> <<t>>, n |-> n]
+Select(idx, ts) == [op |-> "select", idx |-> idx, a |-> ts]
+
 \* ---- primitive symbols (interpreted by the exported functions of kestrel_crypto) ----
 Sha(t)              == [op |-> "sha256", a |-> <<t>>]
 Hmac(k, t)          == [op |-> "hmac", a |-> <<k, t>>]
@@ -50,6 +55,7 @@ Dh(sk, pk)          == [op |-> "x25519", a |-> <<sk, pk>>]
 PubOf(sk)           == [op |-> "pub", a |-> <<sk>>]
 Aead(k, n, ad, pt)  == [op |-> "aead", a |-> <<k, n, ad, pt>>]     \* RFC 8439 seal: ct || tag
 Hkdf(salt, ikm, info, len) == [op |-> "hkdf", a |-> <<salt, ikm, info>>, n |-> len]
+Salsa(t)            == [op |-> "salsa", a |-> <<t>>]                \* the Salsa20/8 core on one 64-byte block (hook)
 Scrypt(pw, salt, n, r, p, len) == [op |-> "scrypt", a |-> <<pw, salt>>, N |-> n, r |-> r, p |-> p, n |-> len]
 
 \* The Noise AEAD nonce: four zero bytes, then the 64-bit little-endian counter.
